@@ -559,6 +559,7 @@ class Expander:
         body = src.text[b_s:b_e]
         frm = thr = None
         thr_stmt = False
+        from_start = False
         rewrites = []
         inserts = []   # (anchor, [payload lines], d_line)
         for d_line, d in block:
@@ -571,6 +572,8 @@ class Expander:
                 frm = d.split(None, 1)[1]
             elif d.startswith("//@through-block-re "):
                 thr = d.split(None, 1)[1]
+            elif d == "//@from-start":
+                from_start = True
             elif d.startswith("//@through-stmt-re "):
                 thr = d.split(None, 1)[1]
                 thr_stmt = True
@@ -585,6 +588,12 @@ class Expander:
         if len(ms) != 1:
             raise ExtractError(f"{src.label}:{name}: fragment start anchor matches {len(ms)} times: {frm!r}")
         start = body.rfind("\n", 0, ms[0].start()) + 1
+        if from_start:
+            # the run must begin with the function's first statement: nothing but blank lines and comments before it
+            lead = re.sub(r"//[^\n]*", "", body[:start])
+            lead = re.sub(r"/\*.*?\*/", "", lead, flags=re.S)
+            if lead.strip():
+                raise ExtractError(f"{src.label}:{name}: fragment start anchor is no longer the first statement of the function (code precedes it): {frm!r}")
         ms = list(re.finditer(thr, body))
         if len(ms) != 1:
             raise ExtractError(f"{src.label}:{name}: fragment end anchor matches {len(ms)} times: {thr!r}")
